@@ -206,16 +206,18 @@ Definition revoke_pk (keys : list pk) (b : blob) : option (list pk) :=
   | _ => None
   end.
 
-(** revokePkByIndex (index already uint32): len < index is "no such key" (Gen); index 0 wraps to
-    2^32-1 in [index -= 1] and [publicKeys[index]] panics — the call cannot succeed. *)
+(** revokePkByIndex (index already uint32): the range check (Gen; since repair 2977caad it also
+    rejects index 0), then [index -= 1] in uint32 and [publicKeys[index]] — an index outside the
+    slice is a Go panic, i.e. the call cannot succeed. *)
 Definition revoke_by_index (keys : list pk) (index : N) : option (list pk) :=
-  if revoke_index_nokey (len keys) index then None
-  else if index =? 0 then None
-  else match nth_error keys (N.to_nat (index - 1)) with
-       | None => None
-       | Some p => if pk_revoked p then None
-                   else Some (upd_nth keys (N.to_nat (index - 1)) (set_revoked p))
-       end.
+  if revoke_index_nokey index (len keys) then None
+  else let j := u32 (index + 4294967295) in
+       if len keys <=? j then None   (* index out of range: panic *)
+       else match nth_error keys (N.to_nat j) with
+            | None => None
+            | Some p => if pk_revoked p then None
+                        else Some (upd_nth keys (N.to_nat j) (set_revoked p))
+            end.
 
 (** changePkAuthentication (Gen: index check, revoked check). *)
 Definition change_auth (keys : list pk) (index : N) (v : bool) : option (list pk) :=
